@@ -4,11 +4,13 @@ import (
 	"fmt"
 	"go/types"
 	"math/big"
+	"strings"
 
 	"golang.org/x/tools/go/ssa"
 
 	"svcheck/absint"
 	"svcheck/load"
+	"svcheck/report"
 )
 
 var (
@@ -57,6 +59,8 @@ type elemModel struct {
 	ie         int // limb array inside field.Element
 	scalarT    types.Type
 	is         int // limb array inside Scalar
+	// fields of Element / Scalar other than the value (and zero-size markers)
+	extraElem, extraScalar []string
 }
 
 func (m *elemModel) limbCell(fe *absint.Cell) *absint.Cell { return fe.Kids[m.ie] }
@@ -118,6 +122,19 @@ func discoverModel(p *load.Prog) (*elemModel, error) {
 	}()
 	if err != nil {
 		return nil, err
+	}
+	// state beyond the value: any other field of non-zero size
+	est := m.elemT.Underlying().(*types.Struct)
+	for i := 0; i < est.NumFields(); i++ {
+		if i != m.ix && i != m.iy && i != m.iz && !zeroSize(est.Field(i).Type()) {
+			m.extraElem = append(m.extraElem, est.Field(i).Name())
+		}
+	}
+	sst := m.scalarT.Underlying().(*types.Struct)
+	for i := 0; i < sst.NumFields(); i++ {
+		if i != m.is && !zeroSize(sst.Field(i).Type()) {
+			m.extraScalar = append(m.extraScalar, sst.Field(i).Name())
+		}
 	}
 	if m.ix < 0 || m.iy < 0 || m.iz < 0 {
 		return nil, fmt.Errorf("Base() does not produce (Gx, Gy, 1): coordinate roles (x=%d y=%d z=%d) cannot be discovered", m.ix, m.iy, m.iz)
@@ -199,4 +216,32 @@ func (m *elemModel) newElemLocal(it *absint.Interp, name string, x, y, z *absint
 	it.SetMont(FP, m.limbCell(o.Root.Kids[m.iy]), y)
 	it.SetMont(FP, m.limbCell(o.Root.Kids[m.iz]), z)
 	return o
+}
+
+
+func zeroSize(t types.Type) bool {
+	switch u := t.Underlying().(type) {
+	case *types.Array:
+		return u.Len() == 0 || zeroSize(u.Elem())
+	case *types.Struct:
+		for i := 0; i < u.NumFields(); i++ {
+			if !zeroSize(u.Field(i).Type()) {
+				return false
+			}
+		}
+		return true
+	}
+	return false
+}
+
+// stateGuard: the per-call analyses range over the value fields (three coordinates / the limb array) of their
+// symbolic operands. A further field (a cache, a flag, a pointer) is state they do not range over: a call's result
+// may then depend on the history of the object, which no per-call argument covers - the property is undecided.
+func (m *elemModel) stateGuard(r *report.Report, prop string, elem, scalar bool) {
+	if elem && len(m.extraElem) > 0 {
+		r.Undecided(prop+".model", "Element state", "", fmt.Sprintf("Element carries state beyond its three coordinates (field %s): the analysis ranges over coordinates only and cannot cover the histories that state encodes", strings.Join(m.extraElem, ", ")))
+	}
+	if scalar && len(m.extraScalar) > 0 {
+		r.Undecided(prop+".model", "Scalar state", "", fmt.Sprintf("Scalar carries state beyond its limb array (field %s): the analysis ranges over the value only and cannot cover the histories that state encodes", strings.Join(m.extraScalar, ", ")))
+	}
 }
